@@ -60,15 +60,15 @@ Section Struct.
   Notation p_finish := (p_finish atof d2f).
 
   (* what the grammar denotes *)
-  Fixpoint den_body (b : body) : res filter :=
+  Fixpoint den_body (b : body) : res qfilter :=
     match b with
     | BLeaf neg ts => p_finish (mkP ts None None neg)
     | BConj k o1 os =>
         bind (den_op o1) (fun f1 => bind (den_rest os) (fun fs => Ok (conj_filter k (f1 :: fs))))
     end
-  with den_op (o : operand) : res filter :=
+  with den_op (o : operand) : res qfilter :=
     match o with OGroup neg b => bind (den_body b) (fun f => Ok (maybe_negate neg f)) end
-  with den_rest (os : olist) : res (list filter) :=
+  with den_rest (os : olist) : res (list qfilter) :=
     match os with
     | ONil => Ok []
     | OCons o t => bind (den_op o) (fun f => bind (den_rest t) (fun fs => Ok (f :: fs)))
@@ -132,8 +132,32 @@ Section Struct.
       rewrite <- app_assoc. reflexivity.
   Qed.
 
-  Definition acc (c : option (N * list filter)) : list filter := match c with Some (_, kids) => kids | None => [] end.
-  Definition conj_ok (k : N) (c : option (N * list filter)) : Prop := match c with Some (k0, _) => k0 = k | None => True end.
+  Definition acc (c : option (N * list qfilter)) : list qfilter := match c with Some (_, kids) => kids | None => [] end.
+  Definition conj_ok (k : N) (c : option (N * list qfilter)) : Prop := match c with Some (k0, _) => k0 = k | None => True end.
+
+  Lemma step_conj fuel k l tl c fprev negprev :
+    is_conj k = true -> conj_ok k c ->
+    p_loop (S fuel) (fixed_tok k :: l, tl) (mkP [] c (Some fprev) negprev) =
+    p_loop fuel (l, tl) (mkP [] (Some (k, acc c ++ [maybe_negate negprev fprev])) None false).
+  Proof.
+    intros Hk Hc.
+    cbn [FltParse.p_loop]. unfold snext. cbn [fst snd fixed_tok tk p_toks p_conj p_sub p_neg].
+    unfold is_conj in Hk.
+    assert (Hn : (k =? c_LTOKEN_NOT) = false).
+    { destruct (k =? c_LTOKEN_NOT) eqn:E; [|reflexivity]. apply N.eqb_eq in E. subst k. discriminate Hk. }
+    assert (Hl : (k =? c_LTOKEN_LPAREN) = false).
+    { destruct (k =? c_LTOKEN_LPAREN) eqn:E; [|reflexivity]. apply N.eqb_eq in E. subst k. discriminate Hk. }
+    assert (Hr : (k =? c_LTOKEN_RPAREN) = false).
+    { destruct (k =? c_LTOKEN_RPAREN) eqn:E; [|reflexivity]. apply N.eqb_eq in E. subst k. discriminate Hk. }
+    rewrite Hn, Hl, Hr, Hk.
+    destruct c as [[k0 kids]|]; cbn [conj_ok acc] in *.
+    - subst k0. rewrite N.eqb_refl. reflexivity.
+    - reflexivity.
+  Qed.
+
+  Lemma finish_conj k kids f neg :
+    p_finish (mkP [] (Some (k, kids)) (Some f) neg) = Ok (conj_filter k (kids ++ [maybe_negate neg f])).
+  Proof. reflexivity. Qed.
 
   Lemma fuel_split (a b : nat) : (a < b)%nat -> exists f, b = (a + S f)%nat.
   Proof. intros H. exists (b - a - 1)%nat. lia. Qed.
@@ -198,7 +222,7 @@ Section Struct.
       destruct fuel as [|fuel]; [lia|].
       rewrite (step_end fuel term tl rest _ He).
       + destruct c as [[k0 kids]|]; [|destruct Hne; congruence].
-        cbn [conj_ok] in Hc. subst k0. cbn [FltParse.p_finish p_conj p_sub p_neg bind acc]. reflexivity.
+        cbn [conj_ok] in Hc. subst k0. rewrite finish_conj. reflexivity.
       + cbn [p_sub p_conj p_toks]. destruct c; [exact I|destruct Hne; congruence].
     - (* OCons *)
       intros o IHo t IHt [Hwo Hwt] k fuel term tl rest c fprev negprev Hk Hc _ He Hlen.
@@ -207,29 +231,14 @@ Section Struct.
       { cbn [app]. rewrite <- app_assoc. reflexivity. }
       rewrite Hlist in *. clear Hlist. cbn [length] in Hlen.
       destruct fuel as [|fuel]; [lia|].
-      (* the conjunction keyword *)
-      assert (Hstep : p_loop (S fuel) (fixed_tok k :: toks_op o ++ toks_rest k t ++ term, tl) (mkP [] c (Some fprev) negprev) =
-                      p_loop fuel (toks_op o ++ toks_rest k t ++ term, tl)
-                        (mkP [] (Some (k, acc c ++ [maybe_negate negprev fprev])) None false)).
-      { cbn [FltParse.p_loop]. unfold snext. cbn [fst snd fixed_tok tk p_toks p_conj p_sub p_neg].
-        unfold is_conj in Hk.
-        assert (Hn : (k =? c_LTOKEN_NOT) = false).
-        { destruct (k =? c_LTOKEN_NOT) eqn:E; [|reflexivity]. apply N.eqb_eq in E. subst k. discriminate Hk. }
-        assert (Hl : (k =? c_LTOKEN_LPAREN) = false).
-        { destruct (k =? c_LTOKEN_LPAREN) eqn:E; [|reflexivity]. apply N.eqb_eq in E. subst k. discriminate Hk. }
-        assert (Hr : (k =? c_LTOKEN_RPAREN) = false).
-        { destruct (k =? c_LTOKEN_RPAREN) eqn:E; [|reflexivity]. apply N.eqb_eq in E. subst k. discriminate Hk. }
-        rewrite Hn, Hl, Hr, Hk.
-        destruct c as [[k0 kids]|]; cbn [conj_ok acc] in *.
-        - subst k0. rewrite N.eqb_refl. reflexivity.
-        - reflexivity. }
-      rewrite Hstep.
+      rewrite (step_conj fuel k _ tl c fprev negprev Hk Hc).
       destruct (IHo Hwo fuel (toks_rest k t ++ term) tl (Some (k, acc c ++ [maybe_negate negprev fprev])) ltac:(lia))
         as [fuel' [Hf' Heq]].
       rewrite Heq. destruct o as [neg b]. cbn [den_op].
       destruct (den_body b) as [f| | |]; cbn [bind]; try reflexivity.
-      rewrite (IHt Hwt k fuel' term tl rest (Some (k, acc c ++ [maybe_negate negprev fprev])) f neg Hk eq_refl
-                 (or_introl ltac:(discriminate)) He Hf').
+      assert (Hne2 : Some (k, acc c ++ [maybe_negate negprev fprev]) <> None \/ t <> ONil) by (left; discriminate).
+      assert (Hck : conj_ok k (Some (k, acc c ++ [maybe_negate negprev fprev]))) by reflexivity.
+      rewrite (IHt Hwt k fuel' term tl rest (Some (k, acc c ++ [maybe_negate negprev fprev])) f neg Hk Hck Hne2 He Hf').
       cbn [acc]. destruct (den_rest t); cbn [bind]; try reflexivity.
       rewrite <- app_assoc. reflexivity.
   Qed.
